@@ -57,6 +57,7 @@ func New(conf config.Config) *Server {
 
 type Server struct {
 	mu            sync.Mutex
+	muReferrer    sync.Mutex // serializes updates to referrers responses, which span multiple store calls
 	conf          config.Config
 	store         store.Store
 	log           *slog.Logger
